@@ -188,7 +188,10 @@ class SymText:
         return not self.__eq__(o)
 
     def __hash__(self):
-        raise E.HarnessError("hash of symbolic text")
+        # constant: dictionaries keyed ONLY by symbolic texts (the parser's scope tables at character
+        # level) then fall back on __eq__, which decides symbolically.  Module tables keyed by plain
+        # strings are accessed through the rewritten helpers, never through this hash.
+        return 7
 
     def lstrip(self, chars=None):
         if chars is None:
